@@ -3,6 +3,7 @@ package harness
 import (
 	"context"
 	"fmt"
+	"strings"
 	"time"
 
 	"github.com/jhump/grpctunnel/verifrt"
@@ -204,41 +205,67 @@ func c15Scenarios(tier string) []*Scenario {
 					if !noFC && p.name == "stalled-stream||cancel||rpc" && rev {
 						continue
 					}
-					cfg := TunCfg{Reverse: rev, ServerNoFC: noFC}
-					scs = append(scs, &Scenario{
-						Name: fmt.Sprintf("c15/%s/%s/rev=%v", cfg, p.name, revOrder), Prop: "C15", Heavy: true,
-						Desc: fmt.Sprintf("%s on a %s tunnel; every lock, atomic, condition, wait-group and channel operation of the library is a scheduling point; <= %d deviations", p.desc, cfg, bound),
-						Opt:  Options{Level: "sync", Bound: bound, RevOrder: revOrder},
-						Run: func(w *World) {
-							t := w.OpenTunnel(cfg)
-							if t.StartErr != nil {
-								return
-							}
-							p.run(w, t)
-							t.Close()
-						},
-						Check: func(w *World, x *Exec) []Violation {
-							vs := NoHang(x, "C15")
-							if x.Hang {
-								vs[0].Sig = "conc:" + vs[0].Sig
+					cfgs := []TunCfg{{Reverse: rev, ServerNoFC: noFC}}
+					if !noFC && !rev && (p.name == "send||recv||header" || p.name == "2x(send||recv)") {
+						// the same on a carrier that holds one frame per direction: every send of the
+						// library can be held up by the transport
+						cfgs = append(cfgs, TunCfg{Cap: 1})
+					}
+					for _, cfg := range cfgs {
+						cfg := cfg
+						scs = append(scs, &Scenario{
+							Name: fmt.Sprintf("c15/%s/%s/rev=%v", cfg, p.name, revOrder), Prop: "C15", Heavy: true,
+							Desc: fmt.Sprintf("%s on a %s tunnel; every lock, atomic, condition, wait-group and channel operation of the library is a scheduling point; <= %d deviations", p.desc, cfg, bound),
+							Opt:  Options{Level: "sync", Bound: bound, RevOrder: revOrder},
+							Run: func(w *World) {
+								t := w.OpenTunnel(cfg)
+								if t.StartErr != nil {
+									return
+								}
+								p.run(w, t)
+								t.Close()
+							},
+							Check: func(w *World, x *Exec) []Violation {
+								vs := NoHang(x, "C15")
+								if x.Hang {
+									vs[0].Sig = "conc:" + vs[0].Sig
+									return vs
+								}
+								vs = append(vs, p.chk(w, x)...)
+								vs = append(vs, NoLeak(w, x, "C15")...)
 								return vs
-							}
-							vs = append(vs, p.chk(w, x)...)
-							vs = append(vs, NoLeak(w, x, "C15")...)
-							return vs
-						},
-					})
+							},
+						})
+					}
 				}
 			}
 		}
+	}
+	// "... without deadlocks": bidirectional bulk traffic on carriers that hold one frame per
+	// direction (the flow-control workloads of C05 with back-pressure both ways), judged here for
+	// deadlock only
+	for _, sc := range c05TunnelScenarios(tier) {
+		if !strings.Contains(sc.Name, "/cap1/CS+SS") {
+			continue
+		}
+		c := *sc
+		c.Name, c.Prop = "c15/backpressure/"+strings.TrimPrefix(sc.Name, "c05/tunnel/"), "C15"
+		c.Check = func(w *World, x *Exec) []Violation {
+			vs := NoHang(x, "C15")
+			if x.Hang {
+				vs[0].Sig = "conc:" + vs[0].Sig
+			}
+			return vs
+		}
+		scs = append(scs, &c)
 	}
 	return scs
 }
 
 func init() {
 	register(&PropDef{ID: "C15", Level: "model_checking",
-		Rule:        "concurrent API programs (send || recv || Header on one RPC; two such RPCs; a handler parked in a window-limited send || cancel || another RPC; RPCs || Close/Err/Done; RPCs || GracefulStop || Stop; registry queries || tunnel open || RPC), forward and reverse, flow control and revision zero, with EVERY lock, atomic, condition, wait-group and channel operation of the library as a scheduling point; all schedules with <= 1 (quick) / 2 (thorough) deviations around two default-scheduler families; decided: no panic, no deadlock/hang, no atomicity violation visible to the message and metadata oracles, nothing left behind. The literal data-race clause (Go memory model) is NOT decidable by schedule enumeration with the installed tools and is not claimed here (see DESIGN.md 3.C15)",
-		Assumptions: []string{"by Go's DRF-SC guarantee the sequentially consistent interleavings at synchronisation granularity enumerated here are all behaviours of the program only if it is data-race free; data-race freedom itself is outside this check"},
+		Rule:        "concurrent API programs (send || recv || Header on one RPC; two such RPCs; a handler parked in a window-limited send || cancel || another RPC; RPCs || Close/Err/Done; RPCs || GracefulStop || Stop; registry queries || tunnel open || RPC), forward and reverse, flow control and revision zero, with EVERY lock, atomic, condition, wait-group and channel operation of the library as a scheduling point; all schedules with <= 1 (quick) / 2 (thorough) deviations around two default-scheduler families; decided: no panic, no deadlock/hang, no atomicity violation visible to the message and metadata oracles, nothing left behind. the split-RPC programs also on a carrier that holds one frame per direction. The literal data-race clause (Go memory model) is not decidable by schedule enumeration; it is covered by the separate free-running race-detector pass (coverage.race_pass; sampling, see DESIGN.md 3.C15)",
+		Assumptions: []string{"by Go's DRF-SC guarantee the sequentially consistent interleavings at synchronisation granularity enumerated here are all behaviours of the program only if it is data-race free; data-race freedom itself is sampled by the race pass, not enumerated"},
 		Globals:     []func(*Scenario, *World, *Exec) []Violation{ProtoMonitor},
 		Scenarios:   c15Scenarios})
 }
